@@ -699,6 +699,10 @@ func checkProperty(opt *Options, start time.Time) int {
 		}
 	}
 	results := runAll(ld, sf, opt, "")
+	structTier, structVerifDir = opt.tier, opt.verifDir
+	if _, err := os.Stat(filepath.Join(structVerifDir, "lemmas")); err != nil {
+		structVerifDir = "/verif"
+	}
 	structural := runStructural(ld, sf, opt.prop)
 	total, discharged := 0, 0
 	var failed []*Obl
@@ -875,6 +879,7 @@ func checkProperty(opt *Options, start time.Time) int {
 			"functions_under_contract": funcs,
 			"per_backend":              perBackend,
 			"slowest":                  slowest,
+			"structural_obligations":   structSummary(structural),
 			"vacuity_covers":           map[string]int{"checked": covers, "reachable_sat": coversOK, "not_refuted_unknown": coversUnk},
 			"known_findings_hit":       knownHit,
 			"undischarged":             failedNames(failed),
@@ -1003,4 +1008,16 @@ func trunc(s string, n int) string {
 		return s[:n] + "..."
 	}
 	return s
+}
+
+// structSummary: the obligations that are decided by a scan of the SSA (or by Lean) rather than by an SMT query.
+func structSummary(so []StructObl) []map[string]interface{} {
+	var out []map[string]interface{}
+	for i, o := range so {
+		if i >= 150 {
+			break
+		}
+		out = append(out, map[string]interface{}{"obligation": o.Name, "ok": o.OK, "detail": trunc(o.Detail, 240)})
+	}
+	return out
 }
